@@ -43,6 +43,8 @@ CONSTANTS QosChoices,   \* set of records [wrel, rrel, wtl, rtl : BOOLEAN]
           ThirdChoices, \* subset of BOOLEAN: late joiner in its own participant C
           DelChoices,   \* subset of {"none", "R", "W", "PA", "PB"}
           BlackoutChoices, \* subset of {0, 1}
+          PostChoices,  \* subset of {"none", "W2", "R3"}: an endpoint created after the deletion (a second writer in A, a
+                        \* second reader in B): it must not be matched with what was deleted
           RematchFix,   \* endpoints restored from the attic are matched again (finding S8 repaired)
           MatchOnCreate, \* a new local endpoint is matched against what the DiscoveryDB already holds (finding S17 repaired)
           GenK          \* dump one in GenK complete creation orders
@@ -58,10 +60,10 @@ BaseSet == {"PA", "PB", "TA", "TB", "W", "R"}
 Parent(x) == CASE x = "TA" -> "PA" [] x = "TB" -> "PB" [] x = "TC" -> "PC"
                [] x = "W" -> "TA" [] x = "R" -> "TB" [] OTHER -> "none"
 Parts == {"PA", "PB", "PC"}
-Endpoints == {"W", "R", "R2"}
+Endpoints == {"W", "R", "R2", "W2", "R3"}
 
 VARIABLES
-  qos, late, third, del, blackout,   \* the scenario (fixed in Init)
+  qos, late, third, del, blackout, post,   \* the scenario (fixed in Init)
   hist,        \* creation order of the base entities
   created,     \* entities that exist now
   everDeleted, \* entities deleted
@@ -72,28 +74,30 @@ VARIABLES
   silent,      \* participants whose outgoing traffic is currently blocked
   blackoutLeft \* how many blackouts may still begin
 
-vars == <<qos, late, third, del, blackout, hist, created, everDeleted, knows, seen, attic, matched, silent, blackoutLeft>>
+vars == <<qos, late, third, del, blackout, post, hist, created, everDeleted, knows, seen, attic, matched, silent, blackoutLeft>>
 
-Home(e) == CASE e = "W" -> "PA" [] e = "R" -> "PB" [] e = "R2" -> IF third THEN "PC" ELSE "PB"
-TopicOf(e) == CASE e = "W" -> "TA" [] e = "R" -> "TB" [] e = "R2" -> IF third THEN "TC" ELSE "TB"
-IsWriter(e) == e = "W"
+Home(e) == CASE e \in {"W", "W2"} -> "PA" [] e \in {"R", "R3"} -> "PB" [] e = "R2" -> IF third THEN "PC" ELSE "PB"
+TopicOf(e) == CASE e \in {"W", "W2"} -> "TA" [] e \in {"R", "R3"} -> "TB" [] e = "R2" -> IF third THEN "TC" ELSE "TB"
+IsWriter(e) == e \in {"W", "W2"}
 
 \* request/offered: the writer must offer at least what the reader requests
 Compat(w, r) ==
   /\ IsWriter(w) /\ ~IsWriter(r)
-  /\ IF r = "R" THEN (qos.wrel \/ ~qos.rrel) /\ (qos.wtl \/ ~qos.rtl)
+  /\ IF r \in {"R", "R3"} THEN (qos.wrel \/ ~qos.rrel) /\ (qos.wtl \/ ~qos.rtl)      \* W2 / R3 have the QoS of W / R
                ELSE qos.wrel /\ (qos.wtl \/ late # "tl")     \* R2 is reliable, TransientLocal iff late = "tl"
 Pair(e, f) == IF IsWriter(e) THEN Compat(e, f) ELSE Compat(f, e)
 
 Init ==
   /\ qos \in QosChoices /\ late \in LateChoices /\ third \in ThirdChoices /\ del \in DelChoices /\ blackout \in BlackoutChoices
+  /\ post \in PostChoices
   /\ (late = "none" => third = FALSE)
+  /\ (post # "none" => del \in {"R", "W"})
   /\ hist = <<>> /\ created = {} /\ everDeleted = {}
   /\ knows = [p \in Parts |-> {}] /\ seen = [p \in Parts |-> {}] /\ attic = [p \in Parts |-> {}]
   /\ matched = [e \in Endpoints |-> {}]
   /\ silent = {} /\ blackoutLeft = blackout
 
-Scenario == <<qos, late, third, del, blackout>>
+Scenario == <<qos, late, third, del, blackout, post>>
 
 (* ---------------------------------------------------------------- creation *)
 \* a local endpoint is matched against what the DiscoveryDB already holds
@@ -105,7 +109,7 @@ CreateBase(x) ==
   /\ created' = created \cup {x}
   /\ hist' = Append(hist, x)
   /\ matched' = IF x \in Endpoints THEN [matched EXCEPT ![x] = MatchLocal(x, Home(x))] ELSE matched
-  /\ UNCHANGED <<qos, late, third, del, blackout, everDeleted, knows, seen, attic, silent, blackoutLeft>>
+  /\ UNCHANGED <<qos, late, third, del, blackout, post, everDeleted, knows, seen, attic, silent, blackoutLeft>>
 
 \* the late joiner and what it needs, after the base entities exist
 CreateLate(x) ==
@@ -115,7 +119,16 @@ CreateLate(x) ==
   /\ x = "R2" => TopicOf("R2") \in created
   /\ created' = created \cup {x}
   /\ matched' = IF x = "R2" THEN [matched EXCEPT !["R2"] = MatchLocal("R2", Home("R2"))] ELSE matched
-  /\ UNCHANGED <<qos, late, third, del, blackout, hist, everDeleted, knows, seen, attic, silent, blackoutLeft>>
+  /\ UNCHANGED <<qos, late, third, del, blackout, post, hist, everDeleted, knows, seen, attic, silent, blackoutLeft>>
+
+\* an endpoint created after the deletion: matched, like every new local endpoint, against what the DiscoveryDB
+\* of its participant holds at that moment (which may still hold the deleted endpoint if its disposal is under way)
+CreatePost(x) ==
+  /\ post = x /\ x \in {"W2", "R3"} /\ x \notin created /\ x \notin everDeleted
+  /\ everDeleted # {} /\ Home(x) \in created /\ TopicOf(x) \in created
+  /\ created' = created \cup {x}
+  /\ matched' = [matched EXCEPT ![x] = MatchLocal(x, Home(x))]
+  /\ UNCHANGED <<qos, late, third, del, blackout, post, hist, everDeleted, knows, seen, attic, silent, blackoutLeft>>
 
 (* --------------------------------------------------------------- discovery *)
 LiveEndpointsOf(p) == {e \in Endpoints \cap created : Home(e) = p}
@@ -132,7 +145,7 @@ Spdp(p, q) ==
      /\ matched' = IF RematchFix
                      THEN [e \in Endpoints |-> IF e \in LocalAt(q) THEN matched[e] \cup {f \in back : Pair(e, f)} ELSE matched[e]]
                      ELSE matched
-  /\ UNCHANGED <<qos, late, third, del, blackout, hist, created, everDeleted, silent, blackoutLeft>>
+  /\ UNCHANGED <<qos, late, third, del, blackout, post, hist, created, everDeleted, silent, blackoutLeft>>
 
 \* q receives p's SEDP announcement of endpoint e (reliable, needs mutual knowledge)
 Sedp(p, q, e) ==
@@ -142,7 +155,7 @@ Sedp(p, q, e) ==
   /\ e \notin seen[q]
   /\ seen' = [seen EXCEPT ![q] = @ \cup {e}]
   /\ matched' = [l \in Endpoints |-> IF l \in LocalAt(q) /\ Pair(l, e) THEN matched[l] \cup {e} ELSE matched[l]]
-  /\ UNCHANGED <<qos, late, third, del, blackout, hist, created, everDeleted, knows, attic, silent, blackoutLeft>>
+  /\ UNCHANGED <<qos, late, third, del, blackout, post, hist, created, everDeleted, knows, attic, silent, blackoutLeft>>
 
 Forget(q, gone) == [l \in Endpoints |-> IF Home(l) = q THEN matched[l] \ gone ELSE matched[l]]
 
@@ -154,7 +167,7 @@ SedpDispose(p, q, e) ==
   /\ e \in seen[q]
   /\ seen' = [seen EXCEPT ![q] = @ \ {e}]
   /\ matched' = Forget(q, {e})
-  /\ UNCHANGED <<qos, late, third, del, blackout, hist, created, everDeleted, knows, attic, silent, blackoutLeft>>
+  /\ UNCHANGED <<qos, late, third, del, blackout, post, hist, created, everDeleted, knows, attic, silent, blackoutLeft>>
 
 (* ---------------------------------------------------------------- deletion *)
 AllCreated == BaseSet \subseteq created /\ (late # "none" => "R2" \in created)
@@ -164,7 +177,7 @@ DeleteEndpoint(e) ==
   /\ created' = created \ {e}
   /\ everDeleted' = {e}
   /\ matched' = [matched EXCEPT ![e] = {}]
-  /\ UNCHANGED <<qos, late, third, del, blackout, hist, knows, seen, attic, silent, blackoutLeft>>
+  /\ UNCHANGED <<qos, late, third, del, blackout, post, hist, knows, seen, attic, silent, blackoutLeft>>
 
 \* deleting a participant: its endpoints go, and one SPDP dispose datagram goes out to each peer,
 \* which either arrives (heard) or is lost
@@ -177,7 +190,7 @@ DeleteParticipant(p, heard) ==
      /\ seen' = [q \in Parts |-> IF q = p THEN {} ELSE IF q \in heard THEN {e \in seen[q] : Home(e) # p} ELSE seen[q]]
      /\ attic' = [attic EXCEPT ![p] = {}]
      /\ matched' = [l \in Endpoints |-> IF Home(l) = p THEN {} ELSE IF Home(l) \in heard THEN {f \in matched[l] : Home(f) # p} ELSE matched[l]]
-  /\ UNCHANGED <<qos, late, third, del, blackout, hist, silent, blackoutLeft>>
+  /\ UNCHANGED <<qos, late, third, del, blackout, post, hist, silent, blackoutLeft>>
 
 \* q has heard nothing from p for longer than p's lease
 Timeout(q, p) ==
@@ -188,19 +201,20 @@ Timeout(q, p) ==
      /\ seen' = [seen EXCEPT ![q] = @ \ theirs]
      /\ attic' = [attic EXCEPT ![q] = @ \cup theirs]
      /\ matched' = Forget(q, theirs)
-  /\ UNCHANGED <<qos, late, third, del, blackout, hist, created, everDeleted, silent, blackoutLeft>>
+  /\ UNCHANGED <<qos, late, third, del, blackout, post, hist, created, everDeleted, silent, blackoutLeft>>
 
 BlackoutBegin(p) ==
   /\ blackoutLeft > 0 /\ p = "PB" /\ p \in created /\ silent = {}
   /\ silent' = {p} /\ blackoutLeft' = blackoutLeft - 1
-  /\ UNCHANGED <<qos, late, third, del, blackout, hist, created, everDeleted, knows, seen, attic, matched>>
+  /\ UNCHANGED <<qos, late, third, del, blackout, post, hist, created, everDeleted, knows, seen, attic, matched>>
 BlackoutEnd ==
   /\ silent # {} /\ silent' = {}
-  /\ UNCHANGED <<qos, late, third, del, blackout, hist, created, everDeleted, knows, seen, attic, matched, blackoutLeft>>
+  /\ UNCHANGED <<qos, late, third, del, blackout, post, hist, created, everDeleted, knows, seen, attic, matched, blackoutLeft>>
 
 Next ==
   \/ \E x \in BaseSet : CreateBase(x)
   \/ \E x \in {"PC", "TC", "R2"} : CreateLate(x)
+  \/ \E x \in {"W2", "R3"} : CreatePost(x)
   \/ \E p, q \in Parts : Spdp(p, q) \/ Timeout(q, p)
   \/ \E p, q \in Parts, e \in Endpoints : Sedp(p, q, e) \/ SedpDispose(p, q, e)
   \/ \E e \in {"R", "W"} : DeleteEndpoint(e)
@@ -209,6 +223,7 @@ Next ==
 
 Fairness ==
   /\ \A x \in BaseSet \cup {"PC", "TC", "R2"} : WF_vars(CreateBase(x) \/ CreateLate(x))
+  /\ \A x \in {"W2", "R3"} : WF_vars(CreatePost(x))
   /\ \A p, q \in Parts : WF_vars(Spdp(p, q)) /\ WF_vars(Timeout(q, p))
   /\ \A p, q \in Parts, e \in Endpoints : WF_vars(Sedp(p, q, e)) /\ WF_vars(SedpDispose(p, q, e))
   /\ WF_vars(BlackoutEnd)
@@ -225,7 +240,7 @@ Inv_MatchedSound ==
 \* the DiscoveryDB holds an endpoint only of a participant it knows
 Inv_SeenOnlyOfKnown == \A q \in Parts : \A e \in seen[q] : Home(e) \in knows[q]
 Inv_TypeOK ==
-  /\ created \subseteq BaseSet \cup {"PC", "TC", "R2"}
+  /\ created \subseteq BaseSet \cup {"PC", "TC", "R2", "W2", "R3"}
   /\ \A q \in Parts : seen[q] \cap attic[q] = {}
 
 \* whatever the order and the losses, eventually always: matched = compatible and alive
@@ -243,5 +258,5 @@ GenEdge ==
                                   depth |-> (IF RandomElement(1..4) = 1 THEN 2 ELSE 0), late |-> late, third |-> third,
                                   n1 |-> RandomElement(4..12), n2 |-> RandomElement(3..8), size0 |-> RandomElement(0..11),
                                   dispose |-> (RandomElement(1..2) = 1), loss |-> RandomElement({0, 10, 20}),
-                                  del |-> del, blackout |-> blackout, seed |-> RandomElement(1..1000000)]))
+                                  del |-> del, blackout |-> blackout, post |-> post, seed |-> RandomElement(1..1000000)]))
 =============================================================================
